@@ -10,62 +10,62 @@ theorem stepBuilderNew_inv {g : G} (h : Inv g) (c : Nat) : Inv (stepBuilderNew g
   unfold stepBuilderNew
   repeat' split
   all_goals first | exact h | skip
-  inv_groups h
+  inv_groups h []
 
 theorem stepBusSetBuilder_inv {g : G} (h : Inv g) (b : Nat) (c : Option Nat) : Inv (stepBusSetBuilder g b c).1 := by
   unfold stepBusSetBuilder
   repeat' split
   all_goals first | exact h | skip
-  all_goals inv_groups h
+  all_goals inv_groups h []
 
 theorem stepAttrNewStr_inv {g : G} (h : Inv g) (a : Nat) : Inv (stepAttrNewStr g a).1 := by
   unfold stepAttrNewStr
   repeat' split
   all_goals first | exact h | skip
-  inv_groups h
+  inv_groups h []
 
 theorem stepAttrNewInt_inv {g : G} (h : Inv g) (a : Nat) (d mn mx : Int) : Inv (stepAttrNewInt g a d mn mx).1 := by
   unfold stepAttrNewInt
   repeat' split
   all_goals first | exact h | skip
-  inv_groups h
+  inv_groups h []
 
 theorem stepAttrNewEnum_inv {g : G} (h : Inv g) (a : Nat) (vs : List String) : Inv (stepAttrNewEnum g a vs).1 := by
   unfold stepAttrNewEnum
   repeat' split
   all_goals first | exact h | skip
-  inv_groups h
+  inv_groups h []
 
 theorem stepTypeNew_inv {g : G} (h : Inv g) (t : Nat) : Inv (stepTypeNew g t).1 := by
   unfold stepTypeNew
   repeat' split
   all_goals first | exact h | skip
-  inv_groups h
+  inv_groups h []
 
 theorem stepUnitNew_inv {g : G} (h : Inv g) (u : Nat) : Inv (stepUnitNew g u).1 := by
   unfold stepUnitNew
   repeat' split
   all_goals first | exact h | skip
-  inv_groups h
+  inv_groups h []
 
 theorem stepSigNew_inv {g : G} (h : Inv g) (s t : Nat)
     (hx : g.buses.get s = none ∧ g.nodes.get s = none ∧ g.msgs.get s = none) : Inv (stepSigNew g s t).1 := by
   unfold stepSigNew
   repeat' split
   all_goals first | exact h | skip
-  inv_groups h
+  inv_groups h []
 
 theorem stepSigSetType_inv {g : G} (h : Inv g) (s t : Nat) : Inv (stepSigSetType g s t).1 := by
   unfold stepSigSetType
   repeat' split
   all_goals first | exact h | skip
-  all_goals inv_groups h
+  all_goals inv_groups h []
 
 theorem stepSigSetUnit_inv {g : G} (h : Inv g) (s : Nat) (u : Option Nat) : Inv (stepSigSetUnit g s u).1 := by
   unfold stepSigSetUnit
   repeat' split
   all_goals first | exact h | skip
-  all_goals inv_groups h
+  all_goals inv_groups h []
 
 theorem stepAssign_inv {g : G} (h : Inv g) (k : EKind) (x a : Nat) (v : AVal) : Inv (stepAssign g k x a v).1 := by
   unfold stepAssign
@@ -77,7 +77,7 @@ theorem stepAssign_inv {g : G} (h : Inv g) (k : EKind) (x a : Nat) (v : AVal) : 
     | (rename_i _ r hr _ att ha _ hbad _ e he
        have hre : r = e.attrs := by rw [he] at hr; simpa using hr.symm
        subst hre; clear hbad hr
-       inv_groups h)
+       inv_groups h [])
     | (exfalso; simp_all)
 
 theorem stepUnassign_inv {g : G} (h : Inv g) (k : EKind) (x a : Nat) : Inv (stepUnassign g k x a).1 := by
@@ -90,7 +90,7 @@ theorem stepUnassign_inv {g : G} (h : Inv g) (k : EKind) (x a : Nat) : Inv (step
     | (rename_i _ r hr hhas _ e he
        have hre : r = e.attrs := by rw [he] at hr; simpa using hr.symm
        subst hre; clear hr
-       inv_groups h)
+       inv_groups h [])
     | (exfalso; simp_all)
 
 theorem stepUnassignAll_inv {g : G} (h : Inv g) (k : EKind) (x : Nat) : Inv (stepUnassignAll g k x).1 := by
@@ -104,7 +104,7 @@ theorem stepUnassignAll_inv {g : G} (h : Inv g) (k : EKind) (x : Nat) : Inv (ste
        have hre : r = e.attrs := by rw [he] at hr; simpa using hr.symm
        subst hre; clear hr
        have hk := Reg.mem_keys e.attrs
-       inv_groups h)
+       inv_groups h [])
     | (exfalso; simp_all)
 
 end Acme.Graph
